@@ -11,6 +11,7 @@
     v_guards : finding guards (computed from the input and the model's own trace)
              explaining the failing requests; empty if some failing request is unexplained. *)
 From HV Require Export Base.Prelude C03.Model C03.Spec.
+From HV Require Import C03.Proofs C03.ProofsTree.   (* the finding guards are the ones of the theorems *)
 Open Scope string_scope.
 Open Scope list_scope.
 
@@ -36,7 +37,12 @@ Definition call_ok (eng : engine) (tbl : list sroute) (q : request) (k : call) :
   | Some s =>
     match sr_segs s q with
     | None => true          (* which routes are consulted is C02's business *)
-    | Some segs => mres_eqb (k_res k) (spec_answer eng s q segs)
+    | Some segs =>
+      (* no requirement when a path_params condition refers to a segment that is not validly
+         percent-encoded (only the Envoy entry point lets such a path through) *)
+      existsb (fun p => match assoc_first (pp_name p) (declared_names (sr_tokens s)) segs with
+                        | Some v => negb (valid_encb v) | None => false end) (rt_params (sr_route s))
+      || mres_eqb (k_res k) (spec_answer eng s q segs)
     end
   end.
 
@@ -76,61 +82,53 @@ Definition outcome_ok (tbl : list sroute) (q : request) (cs : list call) (o : ou
 Definition req_prop (eng : engine) (tbl : list sroute) (o : reqobs) : bool :=
   forallb (call_ok eng tbl (ro_req o)) (ro_calls o) && outcome_ok tbl (ro_req o) (ro_calls o) (ro_out o).
 
-(* ---- finding guards, per request, on the input and the model's own trace *)
+(* ---- finding guards, per request: the guards of the theorems (C03/Proofs.v, C03/ProofsTree.v),
+        evaluated on the input and on the routes the model's own trace consults *)
 
-Definition shape (ts : list token) : list token :=
-  map (fun t => match t with Lit s => Lit s | Wild _ => Wild "" | Free _ => Free "" end) ts.
-Definition token_eqb (a b : token) : bool :=
-  match a, b with
-  | Lit x, Lit y | Wild x, Wild y | Free x, Free y => String.eqb x y
-  | _, _ => false
-  end.
-
-Definition undecoded (keep : bool) (v : string) : bool :=
-  match spec_decode keep v with Some d => negb (String.eqb d v) | None => false end.
-
-Definition g_call (eng : engine) (tbl : list sroute) (q : request) (k : call) : list Z :=
+Definition g_call (fx2 : bool) (eng : engine) (tbl : list sroute) (q : request) (k : call) : list Z :=
   match nth_error tbl (k_vid k) with
   | None => []
   | Some s =>
     let d := sr_def s in
     let ps := rt_params (sr_route s) in
-    let ts := sr_tokens s in
-    let hostans := map (fun h => tm_match eng true h (q_host q)) (rl_hosts d) in
-    guards [
-      (1%Z, (2 <=? length (rl_hosts d))%nat && existsb (fun b => b) hostans && existsb negb hostans);
-      (2%Z, ends_in_free ts && negb (is_nil ps));
-      (4%Z, negb (is_nil (rl_methods d)) &&
-            match create_method_matcher (rl_methods d) with Ok [] => true | _ => false end);
-      (5%Z, match sr_segs s q with
-            | Some segs => negb (strs_eqb (k_vals k) (if ends_in_free ts then removelast segs else segs))
-            | None => false
-            end);
-      (6%Z, negb (is_nil ps) && (slash_eqb (rl_slash d) SOff || String.eqb (q_rawpath q) "") &&
-            match sr_segs s q with
-            | Some segs => existsb (undecoded (keep_slash_of (rl_slash d))) segs
-            | None => false
-            end)
-    ]
+    let names := declared_names (sr_tokens s) in
+    match sr_segs s q with
+    | None => []
+    | Some segs =>
+      guards [
+        (1%Z, guard_F1 eng (rl_hosts d) q);
+        (2%Z, negb fx2 && guard_F2_params s);
+        (4%Z, guard_F4 (rl_methods d));
+        (6%Z, on_params guard_F6 (rl_slash d) q names segs ps);
+        (7%Z, on_params guard_F7 (rl_slash d) q names segs ps);
+        (8%Z, on_params guard_F8 (rl_slash d) q names segs ps)
+      ]
+    end
   end.
 
-Definition g_req (eng : engine) (tbl : list sroute) (q : request) (mcalls : list call) (mout : outcome) : list Z :=
-  concat (map (g_call eng tbl q) mcalls) ++
-  guards [
-    (3%Z, match mout, matched_vid mcalls with
-          | ORule _ _ _, Some v =>
-            match nth_error tbl v with
-            | Some s => ends_in_free (sr_tokens s) &&
-                        existsb (fun s' => list_eqb token_eqb (shape (sr_tokens s')) (shape (sr_tokens s)) &&
-                                           negb (strs_eqb (declared_names (sr_tokens s')) (declared_names (sr_tokens s)))) tbl
-            | None => false
-            end
-          | _, _ => false
-          end);
-    (5%Z, match mout with OPanic => true | _ => false end);
-    (7%Z, contains "%2f" (lookup_path q));
-    (8%Z, contains "$$$escaped-slash" (path_unescape (lookup_path q)))
-  ].
+Definition g_req (fx2 fx5 : bool) (eng : engine) (es : list centry) (t : tree) (tbl : list sroute) (q : request)
+           (mcalls : list call) (mout : outcome) : list Z :=
+  concat (map (g_call fx2 eng tbl q) mcalls) ++
+  guards [ (5%Z, negb fx5 && guard_F5 fx2 eng es t q) ] ++
+  match mout, matched_vid mcalls with
+  | ORule _ _ _, Some v =>
+    match nth_error tbl v with
+    | Some s =>
+      match sr_segs s q with
+      | Some segs =>
+        let sl := rl_slash (sr_def s) in
+        let pairs := named_pairs (declared_names (sr_tokens s)) segs in
+        guards [
+          (3%Z, guard_F3 tbl s);
+          (7%Z, (slash_eqb sl SOff && contains "%2f" (q_rawpath q)) || caps_guard_F7 sl pairs);
+          (8%Z, caps_guard_F8 sl pairs)
+        ]
+      | None => []
+      end
+    | None => []
+    end
+  | _, _ => []
+  end.
 
 Fixpoint zmem (x : Z) (l : list Z) : bool :=
   match l with [] => false | y :: r => Z.eqb x y || zmem x r end.
@@ -155,7 +153,7 @@ Definition check (fx2 fx5 : bool) (c : case) : verdict :=
                   let '(mout, mcalls) := serve fx2 fx5 eng es t (ro_req o) in
                   (outcome_eqb mout (ro_out o) && list_eqb call_eqb mcalls (ro_calls o),
                    req_prop eng tbl o,
-                   g_req eng tbl (ro_req o) mcalls mout)) (c_reqs c) in
+                   g_req fx2 fx5 eng es t tbl (ro_req o) mcalls mout)) (c_reqs c) in
     let failing := filter (fun r => negb (snd (fst r))) rows in
     {| v_corr := loadobs_eqb (c_load c) OLoaded && forallb (fun r => fst (fst r)) rows;
        v_prop := is_nil failing;
